@@ -1,6 +1,8 @@
 """C14 — SSA validity. Theorems: Props/C14.lean (the local certificate check implies, for all paths
 of any length, that every read names the most recently assigned version and phi arguments cover the
-incoming versions). Tie: every real SSA dump is run through the verified checker (L1), together
+incoming versions; the model of the construction passes that check for every input and every numbering,
+C14_construction). Tie: the construction model rebuilds every real SSA dump from the real CFG before SSA
+conversion and the dump's version numbers (L2); every real SSA dump is run through the verified checker (L1), together
 with the static clauses: unique definitions, phis at block heads, signals/components unversioned
 and locals versioned, every version covered by a declaration, and the non-phi statements of the
 SSA CFG equal the pre-SSA statements with versions erased (same blocks, same order)."""
@@ -109,9 +111,34 @@ def run(ctx):
                                                            "problems": probs[:8], "broken": None})
         elif len(samples) < 2 and "phi" in json.dumps(o["ssa"]):
             samples.append({"source": src[:240], "checker": r})
+    # L2: the construction model (Model/SsaBuild.lean, theorem C14_construction) on the real CFG before SSA conversion, with the
+    # version numbers of the real SSA dump, must rebuild the dump (or fail exactly when the real conversion fails)
+    reqs2, meta2 = [], []
+    for src, o in zip(srcs, obs):
+        if "cfg" not in o:
+            continue
+        reqs2.append("ssabuild (pair %s %s)" % (vlib.sexp(o["cfg"]), vlib.sexp(o["ssa"]) if "ssa" in o else "-"))
+        meta2.append((src, o))
+    l2 = 0
+    for (src, o), r in zip(meta2, vlib.run_model(reqs2)):
+        stats["construction model runs"] += 1
+        if r.startswith("ok both-fail"):
+            stats["conversions that fail in the model and in the code"] += 1
+        elif r.startswith("ok"):
+            stats["SSA forms rebuilt by the model"] += 1
+        if " hyps:" in r:
+            # a hypothesis of C14_construction does not hold on a real CFG (rooted graph, immediate dominators with a smaller index)
+            ctx.violation("construction-hypothesis " + r.split(" hyps:")[1][:40], {"stage": "hypotheses of theorem C14_construction on a real CFG", "source": src,
+                                                                                  "model": r[:300], "broken": "hypothesis of theorem C14_construction"}, no_input=True)
+        if not r.startswith("ok"):
+            l2 += 1
+            # the correspondence is broken; if the SSA form is invalid the verified checker above has reported it with this input
+            ctx.violation("construction-correspondence", {"stage": "L2 construction model vs real SSA conversion", "source": src, "model": r[:600],
+                                                          "broken": "correspondence SsaBuild.build <-> Cfg::into_ssa"}, no_input=True)
     if not ok:
         ctx.violation("theorem " + ";".join(failing)[:200], {"broken": "theorem", "failing": failing}, no_input=True)
     cov = ctx.coverage
+    cov["l2_divergences"] = l2
     cov["evaluations"] = len(srcs)
     cov["distinct_nontrivial"] = stats["SSA CFGs checked"]
     cov["programs"] = stats["SSA CFGs checked"]
